@@ -12,7 +12,10 @@ def rescan(ci, d):
     no use of the library's own == (objects are compared as (name, winding) pairs, boxes
     as canonical tuples).  Returns None when well-typed, else what is wrong."""
     def T(t):
-        return [(repr(x.name), getattr(x, "z", 0)) for x in t.objects]
+        # closed types (biclosed Over / Under) are their own single object and have no name:
+        # their repr prints both sides structurally
+        return [(repr(x.name), getattr(x, "z", 0)) if hasattr(x, "name") else ("type", repr(x))
+                for x in t.objects]
 
     def B(b):
         if not hasattr(b, "name"):      # a slice used as a box (foliation)
@@ -57,6 +60,58 @@ def oracle_outcome(ci, cls, p):
         if bad:
             return "returned diagram%s is ill-typed: %s" % (
                 " #%d of the trace" % k if isinstance(v, list) else "", bad)
+    if p[0] in (G.FOLIATE, G.FOLIATION):
+        return foliation_oracle(ci, cls, p, ds)
+    return None
+
+
+def foliation_oracle(ci, cls, p, ds):
+    """Independent statements about foliate / foliation / flatten / depth on the real objects:
+    every step keeps dom, cod and the multiset of boxes; the slices compose from dom to cod;
+    the foliation diagram itself re-scans; flattening it gives the last yielded step; depth is
+    the number of slices; every slice is one layer of side-by-side boxes."""
+    def T(t):
+        return [(repr(x.name), getattr(x, "z", 0)) for x in t.objects]
+
+    def sig(d):
+        return (T(d.dom), T(d.cod), [ci.canon_box(b) for b in d.boxes], [int(o) for o in d.offsets])
+    try:
+        d = common.with_timeout(10.0, ci.interp, cls, p[1])
+        steps = common.with_timeout(10.0, lambda: list(d.foliate()))
+        fol = common.with_timeout(10.0, d.foliation)
+        flat = common.with_timeout(10.0, fol.flatten)
+        depth = common.with_timeout(10.0, d.depth)
+    except Exception as exc:   # noqa
+        return "foliation of a well-typed diagram raised %s: %s" % (type(exc).__name__, exc)
+    boxes0 = sorted(repr(ci.canon_box(b)) for b in d.boxes)
+    for k, st in enumerate(steps):
+        if T(st.dom) != T(d.dom) or T(st.cod) != T(d.cod):
+            return "foliate step #%d changed the domain / codomain" % k
+        if sorted(repr(ci.canon_box(b)) for b in st.boxes) != boxes0:
+            return "foliate step #%d changed the boxes" % k
+    bad = rescan(ci, fol)
+    if bad:
+        return "foliation() is ill-typed as a diagram of slices: %s" % bad
+    slices = list(fol.boxes)
+    scan = T(d.dom)
+    for k, sl in enumerate(slices):
+        if T(sl.dom) != scan:
+            return "slice #%d does not start where the previous one ends" % k
+        scan = T(sl.cod)
+        if len(sl.boxes) == 0:
+            return "slice #%d is empty" % k
+        for j in range(len(sl.boxes) - 1):
+            if sl.offsets[j] + len(sl.boxes[j].cod) > sl.offsets[j + 1]:
+                return "slice #%d is not one layer of side-by-side boxes (boxes %d, %d)" % (k, j, j + 1)
+    if scan != T(d.cod):
+        return "the slices do not end at the codomain"
+    last = steps[-1] if steps else d
+    if sig(flat) != sig(last):
+        return "foliation().flatten() is not the last diagram yielded by foliate()"
+    if depth != len(slices):
+        return "depth() = %r but the foliation has %d slices" % (depth, len(slices))
+    if ds is not None and p[0] == G.FOLIATION and [sig(x) for x in ds] != [sig(x) for x in slices]:
+        return "foliation() is not deterministic"
     return None
 
 
@@ -101,6 +156,12 @@ def programs(tier, seed, rigid):
             progs.append([G.SLICE, p, [st], []])
             progs.append([G.SLICEREV, p, [st], [rng.randint(-1, n)]])
         progs.append([G.NORMALFORM, p, rng.randint(0, 1)])
+        progs.append([G.FOLIATE, p])
+        progs.append([G.FOLIATION, p])
+    # foliation of wider random diagrams (many parallel boxes: several boxes per slice)
+    for _ in range(250 if tier == "quick" else 4000):
+        p, info = g.diagram(n_boxes=rng.randint(2, 7), max_width=7)
+        progs.append([rng.choice([G.FOLIATE, G.FOLIATION]), p])
     # structured random: one to three API calls on top of a grown diagram
     n_rand = 2500 if tier == "quick" else 40000
     for _ in range(n_rand):
@@ -108,7 +169,7 @@ def programs(tier, seed, rigid):
         depth = rng.randint(1, 3)
         q = g.op_on(p, info)
         for _ in range(depth - 1):
-            if q[0] in (G.NORMALIZE,):
+            if q[0] in (G.NORMALIZE, G.FOLIATE, G.FOLIATION):
                 break
             q = g.op_on(q, info) if rng.random() < 0.5 else q
         progs.append(q)
